@@ -8,7 +8,8 @@
 (***************************************************************************)
 EXTENDS AioSync, P_Sem, Json
 
-CONSTANTS Ops, MaxOps, MaxEnv, Fast, EnvKinds, InitV, MaxV
+CONSTANTS Ops, MaxOps, MaxEnv, Fast, EnvKinds, InitV, MaxV,
+          Retry      \* TRUE: a client whose scope absorbed its cancellation opens a fresh one and carries on
 
 VARIABLES L, E, hist, pst, pbad
 
@@ -91,10 +92,15 @@ ClientFin(t) ==
           /\ L' = r.sm
           /\ K' = SetTop(r.q, t, [Top(r.q, t) EXCEPT !.b = @ - 1])
           /\ Feed(Ev("rel", t, IF r.err THEN "error" ELSE "ok", r.sm))
-     ELSE LET x == ScopeExit(K, t, Reg(K, t)) IN
-          /\ K' = IF IsExc(x.reg) THEN Raise(x.q, t, x.reg) ELSE Ret(x.q, t)
-          /\ UNCHANGED <<L, pst, pbad>>
-  /\ UNCHANGED <<E, hist>>
+          /\ UNCHANGED E
+     ELSE LET x == ScopeExit(K, t, Reg(K, t))
+              again == Retry /\ x.caught IN
+          /\ K' = IF again THEN SetPc(ScopeEnter(x.q, t, FALSE, INF, FALSE, "task"), t, "choose")
+                  ELSE IF IsExc(x.reg) THEN Raise(x.q, t, x.reg) ELSE Ret(x.q, t)
+          /\ E' = IF again THEN [E EXCEPT !.scoped = @ \ {t}] ELSE E
+          /\ IF again THEN Feed([ev |-> "cdone", t |-> t]) ELSE UNCHANGED <<pst, pbad>>
+          /\ UNCHANGED L
+  /\ UNCHANGED hist
 
 LibStep(t) ==
   \/ /\ HelperEnabled(K, t)
